@@ -34,7 +34,12 @@ TCancel ==
   /\ LET e == Trace[l]
          \* On HTTP/1.1 net/http only notices a closed connection while somebody reads it: with an unfinished
          \* request body and a handler that is not in Recv the disconnect is not observable (third-party contract).
-         observable == e.client = "grpc-cancel" \/ e.shape \in {"unary", "sstream"} \/ e.point = "blockedRecv"
+         \* The same holds while the terminating chunk of a chunked body has not been consumed: a streaming handler that
+         \* has read its one message frame but written nothing yet (lateend) cannot be told.
+         observable == /\ (e.client = "grpc-cancel" \/ e.shape \in {"unary", "sstream"} \/ e.point = "blockedRecv")
+                       /\ (e.lateend => \/ e.point \in {"idleAfterSend", "returned"}             \* a reply write drained the body
+                                         \/ (e.point = "blockedSend" /\ e.shape \in {"sstream", "bidi"})
+                                         \/ (e.client = "http-disconnect" /\ e.shape = "unary"))  \* the unary body is read to its end
          bad == IF e.crash # "" THEN {"Crash"}
                 ELSE IF ~observable THEN {}
                 ELSE (IF ~e.ctxdone THEN {"CancelReachesContext"} ELSE {})
